@@ -11,6 +11,7 @@ import (
 	"fmt"
 	"os"
 	"path/filepath"
+	"regexp"
 	"strings"
 
 	lua "github.com/yuin/gopher-lua"
@@ -378,5 +379,150 @@ func pinnedGoAPI5(r *harness.Run, prop string) {
 			}
 			return ""
 		})
+	}
+}
+
+// shebangLines — C17 through the file loader: a first line that starts with '#' is skipped but still
+// counts as a line: error positions, currentline and linedefined of files with and without such a
+// line, with LF / CRLF / CR line ends, with the '#' line being the whole file or not.
+func shebangLines(r *harness.Run) {
+	dir := harness.WorkDir("shebang")
+	defer os.RemoveAll(dir)
+	for _, first := range []string{"", "#!/usr/bin/lua", "#", "# a comment line"} {
+		for _, eol := range []string{"\n", "\r\n", "\r"} {
+			if first != "" && eol == "\r" {
+				continue // luaL_loadfile skips the '#' line up to the next LF: a CR-only file is one such line
+			}
+			for _, body := range []struct {
+				name, src                 string
+				errLine, curLine, defLine int
+			}{
+				// lines are given relative to the first body line (1-based)
+				{"fault", "local x = 1\nlocal y = nil + x\nreturn y", 2, 0, 0},
+				{"currentline", "local a = 1\n\nreturn debug.getinfo(1, 'l').currentline", 0, 3, 0},
+				{"linedefined", "local z\n\n\nlocal function f()\nend\nreturn debug.getinfo(f, 'S').linedefined", 0, 0, 4},
+				{"error-call", "local q = 2\n\nerror('boom')", 3, 0, 0},
+			} {
+				text := strings.ReplaceAll(body.src, "\n", eol)
+				shift := 0
+				if first != "" {
+					text = first + eol + text
+					shift = 1
+				}
+				f := filepath.Join(dir, "prog.lua")
+				os.WriteFile(f, []byte(text), 0o644)
+				L := lua.NewState()
+				got, want := "", ""
+				fn, err := L.LoadFile(f)
+				if err != nil {
+					got = "load error: " + err.Error()
+				} else {
+					L.Push(fn)
+					err = L.PCall(0, 1, nil)
+					switch {
+					case body.errLine > 0:
+						want = fmt.Sprintf(":%d:", body.errLine+shift)
+						if err == nil {
+							got = "no error"
+						} else if m := regexp.MustCompile(`prog\.lua:(\d+):`).FindStringSubmatch(err.Error()); m != nil {
+							got = ":" + m[1] + ":"
+						} else {
+							got = err.Error()
+						}
+					case err != nil:
+						got = "error: " + err.Error()
+					default:
+						got = L.Get(-1).String()
+						want = fmt.Sprint(body.curLine + body.defLine + shift)
+					}
+				}
+				L.Close()
+				sig := fmt.Sprintf("loadfile-lines/%s/first=%q", body.name, first)
+				r.Eval(sig+fmt.Sprintf("/eol=%q", eol), true, func() interface{} {
+					return map[string]interface{}{"case": "LoadFile line numbers", "first_line": first, "eol": eol, "body": body.name}
+				})
+				if got != want {
+					r.Violation(sig, fmt.Sprintf("file %q (line end %q): got %s, expected %s", text, eol, got, want), map[string]interface{}{"file": text})
+				}
+			}
+		}
+	}
+}
+
+// requireHistories — C20 through the embedding API: two-step histories in which the program or the
+// host changes what require consults between two requires.
+func requireHistories(r *harness.Run) {
+	dir := harness.WorkDir("reqhist")
+	defer os.RemoveAll(dir)
+	type step func(L *lua.LState) string
+	lua1 := func(src, want string) step {
+		return func(L *lua.LState) string {
+			if err := L.DoString(src); err != nil {
+				if want == "ERROR" {
+					L.SetTop(0)
+					return ""
+				}
+				return "error: " + err.Error()
+			}
+			var parts []string
+			for i := 1; i <= L.GetTop(); i++ {
+				parts = append(parts, L.Get(i).String())
+			}
+			L.SetTop(0)
+			if got := strings.Join(parts, "|"); got != want {
+				return fmt.Sprintf("%q gives %q, expected %q", src, got, want)
+			}
+			return ""
+		}
+	}
+	preload := func(name, result string) step {
+		return func(L *lua.LState) string {
+			L.PreloadModule(name, func(L *lua.LState) int { L.Push(lua.LString(result)); return 1 })
+			return ""
+		}
+	}
+	writeFile := func(name, content string) step {
+		return func(L *lua.LState) string {
+			os.WriteFile(filepath.Join(dir, name), []byte(content), 0o644)
+			return ""
+		}
+	}
+	setPath := lua1(fmt.Sprintf("package.path = %q", filepath.Join(dir, "?.lua")), "")
+	cases := []struct {
+		name  string
+		steps []step
+	}{
+		{"preload-from-go-after-lua-replaced-package.preload", []step{lua1(`package.preload = {other = function() return "o" end}`, ""), preload("hostmod", "from-host"), lua1(`return require "hostmod", require "other"`, "from-host|o")}},
+		{"preload-from-go-before-and-after-replacement", []step{preload("m1", "one"), lua1(`local old = package.preload package.preload = {} for k, v in pairs(old) do package.preload[k] = v end`, ""), preload("m2", "two"), lua1(`return require "m1", require "m2"`, "one|two")}},
+		{"preload-from-go-wins-over-file", []step{setPath, writeFile("both.lua", `return "from-file"`), lua1(`package.preload = {}`, ""), preload("both", "from-host"), lua1(`return require "both"`, "from-host")}},
+		{"syntax-error-in-module-file-then-repaired", []step{setPath, writeFile("fixme.lua", `return (`), lua1(`return require "fixme"`, "ERROR"), lua1(`return package.loaded.fixme == nil`, "true"), writeFile("fixme.lua", `return "repaired"`), lua1(`return require "fixme"`, "repaired")}},
+		{"non-string-package.path-then-restored", []step{setPath, writeFile("late.lua", `return "late"`), lua1(`local p = package.path package.path = 5 local ok = pcall(require, "late") package.path = p return ok, package.loaded.late == nil, require "late"`, "false|true|late")}},
+		{"raising-searcher-then-removed", []step{lua1(`table.insert(package.loaders, 1, function(n) if n == "boom" and not allow then error("searcher fails") end end) local ok = pcall(require, "boom") allow = true package.preload.boom = function() return "ok-now" end return ok, package.loaded.boom == nil, require "boom"`, "false|true|ok-now")}},
+		{"non-table-package.preload-then-restored", []step{lua1(`local p = package.preload package.preload = 7 local ok = pcall(require, "pp") package.preload = p p.pp = function() return "pp" end return ok, package.loaded.pp == nil, require "pp"`, "false|true|pp")}},
+		{"missing-module-twice-then-provided", []step{lua1(`local a = pcall(require, "later") local b = pcall(require, "later") package.preload.later = function() return "there" end return a, b, require "later"`, "false|false|there")}},
+	}
+	for _, c := range cases {
+		L := lua.NewState()
+		problem := ""
+		func() {
+			defer func() {
+				if rec := recover(); rec != nil {
+					problem = fmt.Sprintf("Go panic: %v", rec)
+				}
+			}()
+			for i, st := range c.steps {
+				if p := st(L); p != "" {
+					problem = fmt.Sprintf("step %d: %s", i+1, p)
+					return
+				}
+			}
+		}()
+		L.Close()
+		r.Eval("require-history/"+c.name, true, func() interface{} {
+			return map[string]interface{}{"case": "require history through the Go API", "name": c.name}
+		})
+		if problem != "" {
+			r.Violation("require-history/"+c.name, c.name+": "+problem, map[string]interface{}{"name": c.name})
+		}
 	}
 }
